@@ -2,11 +2,33 @@
 C14 — passes honour their contract (identity, modified flag, fixpoint, no damage).
 Property theorems about the models in `IrVerif/Model/PassInfra.lean`; helper developments are in
 `IrVerif/Lemmas/PassInfra.lean`.  Core Lean only.
+
+Deepening round (second half of the file, from `C14_pure_rounds` on): the flag / fix-point / measure clauses of
+IdentityElimination, CSE, LiftSubgraphInitializers, OutputFix (flag transcriptions `Model/PassFlags2.lean` next
+to C05's pass models), NameFix (C15's `Names.fixModel`), RemoveUnusedOpsets / RemoveUnusedFunctions (own
+transcriptions in `Model/PassFlags2.lean`), and "ordered stays ordered" for the passes that delete or substitute
+(`sortedModel`).  Helper developments: `Lemmas/PassFlags2.lean` .. `PassFlags9.lean`.
+Proved in full: flag honesty (False => the model value is unchanged) for all seven; idempotence for
+IdentityElimination (on `validModel`), LiftSubgraphInitializers, OutputFix, NameFix (C15's `PassWF`),
+RemoveUnusedOpsets, RemoveUnusedFunctions; a strictly decreasing measure for all but CSE.
+PARTIAL (named `_partial`): the measure of CSE - strict decrease is proved unless a one-output Identity node is
+replaced by another Identity node (`cseStalled`); CSE is NOT idempotent (example `exCse3`).
+Not here (oracle only): Inline, AddDefaultAttributes, the schema-driven optional-output removal; use-def
+consistency; names kept; ordered-stays-ordered for CSE / OutputFix / Inline; nothing mentions serialized bytes.
 -/
 import IrVerif.Model.PassInfra
 import IrVerif.Lemmas.PassInfra
 import IrVerif.Lemmas.PassSort
 import IrVerif.Lemmas.PassFlags
+import IrVerif.Lemmas.PassFlags2
+import IrVerif.Lemmas.PassFlags3
+import IrVerif.Lemmas.PassFlags4
+import IrVerif.Lemmas.PassFlags5
+import IrVerif.Lemmas.PassFlags6
+import IrVerif.Lemmas.PassFlags7
+import IrVerif.Lemmas.PassFlags8
+import IrVerif.Lemmas.PassFlags9
+import IrVerif.Props.C15
 namespace IrVerif.PassInfra
 
 /-! ## identity rule -/
@@ -1321,5 +1343,484 @@ example : sortPassFlag [exSortGood] = false := by decide
 end
 
 end NonVacuity
+
+/-! # Deepening round: flag / fix-point / measure clauses of further built-in passes
+
+IdentityElimination, CSE, LiftSubgraphInitializers and OutputFix on C05's pass models
+(`Model/Passes.lean`) with the flag transcribed in `Model/PassFlags2.lean`; NameFix on C15's model of
+the pass (`Names.fixModel`, whose second component IS the flag); RemoveUnusedOpsets and
+RemoveUnusedFunctions on their own transcriptions (`Model/PassFlags2.lean`).  "Unchanged" means: the
+model value is the same value (C05's IR: structure and value identities; names, shapes, types and
+metadata are not part of it - for NameFix: every value name, node name and initializer dictionary). -/
+
+/-- **C14_pure_rounds**: a pass that is a pure function `f` of the model state with an honest flag and a
+    measure that strictly decreases when the flag is up: a PassManager with `early_stop` around it
+    executes at most `μ s + 1` rounds and, given more than `μ s` steps, ends in a state which the pass
+    maps to itself reporting `False`. -/
+theorem C14_pure_rounds {S : Type} (f : S → S) (flag : S → Bool) (μ : S → Nat)
+    (hhon : ∀ s, flag s = false → f s = s) (hdec : ∀ s, flag s = true → μ (f s) < μ s)
+    (n : Nat) (s : S) (m : ModelId) :
+    let round : S → ModelId → Res S := fun s m => (f s, .ok ⟨m, flag s⟩)
+    (mgrLoop round true n s m false).2.2.length ≤ μ s + 1 ∧
+    ∀ s' r fl, μ s < n → mgrLoop round true n s m false = (s', .ok r, fl) →
+      f s' = s' ∧ flag s' = false := by
+  intro round
+  have hdec' : ∀ w m w' r, round w m = (w', .ok r) → r.modified = true →
+      (fun s (_ : ModelId) => μ s) w' r.model < (fun s (_ : ModelId) => μ s) w m := by
+    intro w m w' r h hm
+    simp only [round, Prod.mk.injEq, Except.ok.injEq] at h
+    obtain ⟨rfl, rfl⟩ := h
+    exact hdec w hm
+  have hhon' : ∀ w m w' r, round w m = (w', .ok r) → r.modified = false → w' = w ∧ r.model = m := by
+    intro w m w' r h hm
+    simp only [round, Prod.mk.injEq, Except.ok.injEq] at h
+    obtain ⟨rfl, rfl⟩ := h
+    exact ⟨hhon w hm, rfl⟩
+  refine ⟨C14_rounds round (fun s _ => μ s) hdec' n s m false, fun s' r fl hn h => ?_⟩
+  have := (C14_fixpoint round (fun s _ => μ s) hdec' hhon' n s s' m false r fl hn h).2
+  simp only [round, Prod.mk.injEq, Except.ok.injEq, PassResult.mk.injEq, true_and] at this
+  exact this
+
+/-- **C14_idempotent_rounds**: if one application of the round always reaches a state on which the
+    round reports `False` (the pass is idempotent), a PassManager with `early_stop` executes at most
+    two rounds, whatever `steps` is. -/
+theorem C14_idempotent_rounds {W : Type} (round : W → ModelId → Res W)
+    (hidem : ∀ w m w' r, round w m = (w', .ok r) →
+      ∃ w'', round w' r.model = (w'', .ok ⟨r.model, false⟩))
+    (n : Nat) (w : W) (m : ModelId) (acc : Bool) :
+    (mgrLoop round true n w m acc).2.2.length ≤ 2 := by
+  let μ : W → ModelId → Nat := fun w m =>
+    match round w m with
+    | (_, .ok r) => if r.modified then 1 else 0
+    | (_, .error _) => 0
+  have hdec : ∀ w m w' r, round w m = (w', .ok r) → r.modified = true → μ w' r.model < μ w m := by
+    intro w m w' r h hm
+    obtain ⟨w'', h2⟩ := hidem w m w' r h
+    simp [μ, h, h2, hm]
+  have hle : μ w m ≤ 1 := by
+    simp only [μ]
+    split
+    · split <;> omega
+    · omega
+  have := C14_rounds round μ hdec n w m acc
+  omega
+
+section C05Models2
+open IrVerif.Sem IrVerif.Passes IrVerif.PassFlags
+
+/-! ## IdentityEliminationPass -/
+
+/-- **C14_flag_identity**: IdentityEliminationPass (C05's model: main graph, all nested graphs, all
+    functions; flag = some `_try_eliminate_identity_node` returned True) reports `modified = False`
+    only if the model it returns is the model it was given. -/
+theorem C14_flag_identity (m : Model) (h : ieFlag m = false) : ieModel m = m := by
+  simp only [ieFlag, bne_eq_false_iff_eq, ieCount] at h
+  have h1 : ieCntG (iiG m.graph ++ m.funcs.flatMap iiG) [] m.graph = 0 := by omega
+  have h3 : (m.funcs.map (ieCntG (iiG m.graph ++ m.funcs.flatMap iiG) [])).sum = 0 := by omega
+  have hf : m.funcs.map (ieG (iiG m.graph ++ m.funcs.flatMap iiG) []) = m.funcs := by
+    have := sum_map_zero _ m.funcs h3
+    conv => rhs; rw [← List.map_id m.funcs]
+    exact List.map_congr_left (fun f hf => ieG_cnt0 _ f (this f hf))
+  cases m with
+  | mk g fs =>
+    simp only at h1 hf
+    simp only [ieModel, ieG_cnt0 _ g h1, hf]
+
+/-- **C14_measure_identity**: every elimination removes a node and nothing is added: the number of
+    nodes (main graph, functions, all nested graphs) drops by at least the number of eliminations, so
+    `modified = True` strictly decreases it (hypothesis of `C14_rounds` / `C14_pure_rounds`). -/
+theorem C14_measure_identity (m : Model) : nodesM (ieModel m) + ieCount m ≤ nodesM m ∧
+    (ieFlag m = true → nodesM (ieModel m) < nodesM m) := by
+  have key : nodesM (ieModel m) + ieCount m ≤ nodesM m := by
+    have h1 := ieG_nodes (iiG m.graph ++ m.funcs.flatMap iiG) [] m.graph
+    have h2 := ie_funcs_nodes (iiG m.graph ++ m.funcs.flatMap iiG) m.funcs
+    simp only [nodesM, ieCount, ieModel]
+    omega
+  refine ⟨key, fun h => ?_⟩
+  simp only [ieFlag, bne_iff_ne, ne_eq] at h
+  omega
+
+/-- **C14_fix_identity**: on a well-formed model (C05's `validModel`: SSA, closed, topologically ordered,
+    scoped - evaluated by the driver on every case) in which Identity nodes hold no graph attributes,
+    IdentityEliminationPass applied to its own result reports `False` and returns it unchanged: every
+    Identity node the pass leaves behind is blocked by a keep rule (3 / 3b / 3c) that still applies to the
+    result, because the values it mentions are produced before it and are therefore never renamed later. -/
+theorem C14_fix_identity (m : Model) (hv : validModel m = true) (hn : idNoBodies m = true) :
+    ieFlag (ieModel m) = false ∧ ieModel (ieModel m) = ieModel m := by
+  have h : ieFlag (ieModel m) = false := by
+    simp only [validModel, Bool.and_eq_true] at hv
+    simp only [idNoBodies, Bool.and_eq_true] at hn
+    have hg := hv.1
+    simp only [validG, Bool.and_eq_true] at hg
+    have e1 := ieG_ii (iiG m.graph ++ m.funcs.flatMap iiG) m.graph [] hn.1
+    have e2 := flatMap_ii (iiG m.graph ++ m.funcs.flatMap iiG) m.funcs hn.2
+    have c1 := ieStableG_cnt0 (iiG m.graph ++ m.funcs.flatMap iiG) _
+      (ieG_stable (iiG m.graph ++ m.funcs.flatMap iiG) m.graph [] hg.1.1.1 hg.1.2 (by simp))
+    have c2 := funcs_stable (iiG m.graph ++ m.funcs.flatMap iiG) m.funcs hv.2
+    simp only [ieFlag, ieCount, ieModel, e1, e2, c1, c2, bne_self_eq_false]
+  exact ⟨h, C14_flag_identity _ h⟩
+
+/-- **C14_rounds_identity**: hence `PassManager([IdentityEliminationPass()], steps, early_stop=True)`
+    on the model level stops within `#nodes + 1` rounds in a model the pass leaves unchanged. -/
+theorem C14_rounds_identity (n : Nat) (s : Model) (m : ModelId) :
+    let round : Model → ModelId → Res Model := fun s m => (ieModel s, .ok ⟨m, ieFlag s⟩)
+    (mgrLoop round true n s m false).2.2.length ≤ nodesM s + 1 ∧
+    ∀ s' r fl, nodesM s < n → mgrLoop round true n s m false = (s', .ok r, fl) →
+      ieModel s' = s' ∧ ieFlag s' = false :=
+  C14_pure_rounds ieModel ieFlag nodesM C14_flag_identity (fun s => (C14_measure_identity s).2) n s m
+
+/-! ## CommonSubexpressionEliminationPass -/
+
+/-- **C14_flag_cse**: CSE (C05's model, main graph) reports `modified = False` only if the model is
+    returned as it was. -/
+theorem C14_flag_cse (limit : Nat) (m : Model) (h : cseFlag limit m = false) : cseModel limit m = m := by
+  cases m with
+  | mk g fs =>
+    cases g with
+    | mk inputs outputs inits nodes =>
+      simp only [cseFlag, bne_eq_false_iff_eq, cseCount, Graph.inputs, Graph.outputs, Graph.nodes] at h
+      simp only [cseModel, cseNodes_cnt0 limit inputs nodes [] outputs h]
+
+/-- **C14_measure_cse_partial**: exact accounting of the node list of the main graph: one node leaves per
+    elimination (`modified = True` site), one Identity node enters for every graph output whose
+    replacement is itself a graph output or input.  Hence when the pass reports `True` and had to insert
+    no Identity node (decidable; evaluated and counted by the harness) the number of nodes strictly
+    decreased.  PARTIAL: no measure is proved for rounds that insert Identity nodes (there the node
+    count can stay or grow; the pass is then not idempotent either, see the example below) - that part of
+    the convergence clause stays with the oracle. -/
+theorem C14_measure_cse_partial (limit : Nat) (m : Model) :
+    (cseModel limit m).graph.nodes.length + cseCount limit m = m.graph.nodes.length + cseInserted limit m ∧
+    (cseFlag limit m = true → cseInserted limit m = 0 →
+      (cseModel limit m).graph.nodes.length < m.graph.nodes.length) := by
+  have key : (cseModel limit m).graph.nodes.length + cseCount limit m =
+      m.graph.nodes.length + cseInserted limit m := by
+    cases m with
+    | mk g fs =>
+      cases g with
+      | mk inputs outputs inits nodes =>
+        simp only [cseModel, cseCount, cseInserted, Graph.inputs, Graph.outputs, Graph.nodes]
+        exact cseNodes_length limit inputs nodes [] [] outputs
+  refine ⟨key, fun h h0 => ?_⟩
+  simp only [cseFlag, bne_iff_ne, ne_eq] at h
+  omega
+
+/-- **C14_measure_cse_weighted_partial** (stronger than the strict part of `C14_measure_cse_partial`): with
+    the weight 1 for an `Identity` node with one output and 1 + #outputs for every other node, every
+    elimination lowers the weight of the main graph's node list - also when Identity nodes are inserted,
+    because at most one is inserted per output of the eliminated node - EXCEPT the elimination of a one-output
+    `Identity` node that is replaced by another Identity node (`cseStalled`, decidable, evaluated and counted
+    by the harness).  Hence `modified = True` with no such rewrite strictly decreases the weight.  PARTIAL:
+    for rounds with such a rewrite (`exCse3` below from its second round on) no measure is proved. -/
+theorem C14_measure_cse_weighted_partial (limit : Nat) (m : Model) :
+    cseW (cseModel limit m).graph.nodes + cseCount limit m ≤ cseW m.graph.nodes + cseStalled limit m ∧
+    (cseFlag limit m = true → cseStalled limit m = 0 →
+      cseW (cseModel limit m).graph.nodes < cseW m.graph.nodes) := by
+  have key : cseW (cseModel limit m).graph.nodes + cseCount limit m ≤ cseW m.graph.nodes + cseStalled limit m := by
+    cases m with
+    | mk g fs =>
+      cases g with
+      | mk inputs outputs inits nodes =>
+        simp only [cseModel, cseCount, cseStalled, Graph.inputs, Graph.outputs, Graph.nodes]
+        exact cseNodes_weight limit inputs nodes [] [] outputs
+  refine ⟨key, fun h h0 => ?_⟩
+  simp only [cseFlag, bne_iff_ne, ne_eq] at h
+  omega
+
+/-! ## LiftSubgraphInitializersToMainGraphPass -/
+
+/-- **C14_flag_lift_sub_inits**: `modified = False` only if the model is returned as it was. -/
+theorem C14_flag_lift_sub_inits (m : Model) (h : lsiFlag m = false) : lsiModel m = m := by
+  cases m with
+  | mk g fs =>
+    cases g with
+    | mk inputs outputs inits nodes =>
+      simp only [lsiFlag, bne_eq_false_iff_eq, lsiCount, Graph.nodes] at h
+      have h0 : (lsiNodes nodes).2 = [] := List.eq_nil_of_length_eq_zero h
+      simp only [lsiModel, h0, List.append_nil, lsiNodes_nil nodes h0]
+
+/-- **C14_fix_lift_sub_inits**: the pass applied to its own result reports `False` and returns it
+    unchanged (one round reaches the fixpoint). -/
+theorem C14_fix_lift_sub_inits (m : Model) :
+    lsiFlag (lsiModel m) = false ∧ lsiModel (lsiModel m) = lsiModel m := by
+  cases m with
+  | mk g fs =>
+    cases g with
+    | mk inputs outputs inits nodes =>
+      have hi := lsiNodes_idem nodes
+      refine ⟨?_, ?_⟩
+      · simp only [lsiFlag, lsiCount, lsiModel, Graph.nodes, hi, List.length_nil, bne_self_eq_false]
+      · simp only [lsiModel, hi, List.append_nil]
+
+/-- **C14_measure_lift_sub_inits**: every lifted initializer leaves a graph below the main graph, so the
+    number of initializers held below the main graph drops by exactly the count; `True` strictly
+    decreases it. -/
+theorem C14_measure_lift_sub_inits (m : Model) : subInits (lsiModel m) + lsiCount m = subInits m ∧
+    (lsiFlag m = true → subInits (lsiModel m) < subInits m) := by
+  have key : subInits (lsiModel m) + lsiCount m = subInits m := by
+    cases m with
+    | mk g fs =>
+      cases g with
+      | mk inputs outputs inits nodes =>
+        simp only [subInits, lsiModel, lsiCount, Graph.nodes]
+        exact lsiNodes_inits nodes
+  refine ⟨key, fun h => ?_⟩
+  simp only [lsiFlag, bne_iff_ne, ne_eq] at h
+  omega
+
+/-! ## OutputFixPass -/
+
+/-- **C14_flag_output_fix**: `modified = False` only if the model is returned as it was. -/
+theorem C14_flag_output_fix (m : Model) (h : ofixFlag m = false) : ofixModel m = m := by
+  simp only [ofixFlag, bne_eq_false_iff_eq, ofixCount] at h
+  have h1 := ofixG_cnt0 (ginsG m.graph ++ ginsBodies m.funcs) m.graph (freshId m) (by omega)
+  simp only [h1] at h
+  have h2 := ofixBodies_cnt0 (ginsG m.graph ++ ginsBodies m.funcs) m.funcs (freshId m) (by omega)
+  cases m with
+  | mk g fs =>
+    simp only at h1 h2
+    simp only [ofixModel, h1, h2]
+
+theorem ofixCount_ofixModel (m : Model) : ofixCount (ofixModel m) = 0 := by
+  have hgi : ∀ v ∈ ginsG m.graph ++ ginsBodies m.funcs, v < freshId m := by
+    intro v hv
+    apply lt_freshId_of_mem
+    simp only [List.mem_append] at hv ⊢
+    rcases hv with hv | hv
+    · exact Or.inl (Or.inl (Or.inr (ginsG_sub_defs _ hv)))
+    · exact Or.inr (ginsBodies_sub_defs _ hv)
+  have hbg : ∀ v ∈ boutsG m.graph, v < freshId m := by
+    intro v hv
+    apply lt_freshId_of_mem
+    simp only [List.mem_append]
+    exact Or.inl (Or.inl (Or.inl ((mem_refsG v m.graph).2 (Or.inr hv))))
+  have hbf : ∀ v ∈ boutsBodies m.funcs, v < freshId m := by
+    intro v hv
+    apply lt_freshId_of_mem
+    simp only [List.mem_append]
+    exact Or.inl (Or.inr ((mem_refsBodies v m.funcs).2 (Or.inr hv)))
+  have hm := ofixG_mono (ginsG m.graph ++ ginsBodies m.funcs) m.graph (freshId m)
+  have c1 := ofixG_clean (ginsG m.graph ++ ginsBodies m.funcs) m.graph (freshId m) hgi hbg
+  have c2 := ofixBodies_clean (ginsG m.graph ++ ginsBodies m.funcs) m.funcs _
+    (fun v hv => Nat.lt_of_lt_of_le (hgi v hv) hm) (fun v hv => Nat.lt_of_lt_of_le (hbf v hv) hm)
+  simp only [ofixCount, ofixModel, ofixG_gins, ofixBodies_gins, c1, c2]
+
+/-- **C14_fix_output_fix**: the pass applied to its own result reports `False` and returns it unchanged:
+    after one application every output list (main graph, functions, every nested graph) is duplicate
+    free and holds no graph input, because the new Identity outputs are fresh. -/
+theorem C14_fix_output_fix (m : Model) :
+    ofixFlag (ofixModel m) = false ∧ ofixModel (ofixModel m) = ofixModel m := by
+  have h : ofixFlag (ofixModel m) = false := by
+    simp only [ofixFlag, ofixCount_ofixModel, bne_self_eq_false]
+  exact ⟨h, C14_flag_output_fix _ h⟩
+
+/-- **C14_measure_output_fix**: the number of Identity nodes the pass would insert (repeated outputs
+    and outputs that are graph inputs, over all graphs) is a measure: it is 0 after the pass, so
+    `True` strictly decreases it and two rounds always suffice. -/
+theorem C14_measure_output_fix (m : Model) : ofixCount (ofixModel m) = 0 ∧
+    (ofixFlag m = true → ofixCount (ofixModel m) < ofixCount m) := by
+  refine ⟨ofixCount_ofixModel m, fun h => ?_⟩
+  simp only [ofixFlag, bne_iff_ne, ne_eq] at h
+  rw [ofixCount_ofixModel]
+  omega
+
+/-! ## ordered stays ordered for the passes that only delete -/
+
+/-- **C14_keeps_sorted_delete**: a model all of whose graphs are topologically ordered (`sortedModel`: C05's
+    `noFwdG` for the main graph and every function, nested graphs included) is still ordered after
+    RemoveUnusedNodes, LiftConstantsToInitializers (any setting), LiftSubgraphInitializersToMainGraph,
+    RemoveInitializersFromInputs and AddInitializersToInputs (C05's models): these passes only delete nodes,
+    trailing empty inputs and initializers of nested graphs, or touch the input list.  (Passes that
+    substitute values or add nodes - IdentityElimination, CSE, Deduplicate, OutputFix - : oracle only.) -/
+theorem C14_keeps_sorted_delete (m : Model) (h : sortedModel m = true) :
+    sortedModel (dceModel m) = true ∧ (∀ la lim, sortedModel (liftConstModel la lim m) = true) ∧
+    sortedModel (lsiModel m) = true ∧ sortedModel (rmInitInputsModel m) = true ∧
+    sortedModel (addInitInputsModel m) = true := by
+  simp only [sortedModel, Bool.and_eq_true] at h
+  cases m with
+  | mk g fs =>
+    cases g with
+    | mk inputs outputs inits nodes =>
+      simp only at h
+      refine ⟨?_, fun la lim => ?_, ?_, ?_, ?_⟩
+      · have hg := (dceG_shrink (.mk inputs outputs inits nodes)).2.2 h.1
+        simp only [sortedModel, dceModel, Bool.and_eq_true]
+        refine ⟨?_, all_noFwd_map _ (fun f => (dceG_shrink f).2.2) fs h.2⟩
+        simp only [dceG, noFwdG, Graph.nodes] at hg ⊢
+        exact hg
+      · simp only [sortedModel, liftConstModel, Bool.and_eq_true]
+        exact ⟨(liftG_shrink la lim _).2.2 h.1, h.2⟩
+      · simp only [sortedModel, lsiModel, Bool.and_eq_true, noFwdG] at h ⊢
+        exact ⟨(lsiNodes_shrink nodes).noFwd h.1, h.2⟩
+      · simp only [sortedModel, rmInitInputsModel, mapInputsTop, Bool.and_eq_true, noFwdG] at h ⊢
+        exact h
+      · simp only [sortedModel, addInitInputsModel, mapInputsTop, Bool.and_eq_true, noFwdG] at h ⊢
+        exact h
+
+/-- **C14_keeps_sorted_subst**: the same for two passes that delete AND substitute values.
+    IdentityElimination: every value a remaining node reads after the pass is a value it read before or the
+    input of an eliminated Identity node that stood before it, and an ordered graph defines neither at or
+    after the node - no hypothesis besides orderedness.  Deduplicate(Hashed)Initializers: a duplicate is
+    replaced by an initializer of the same or an enclosing graph, which no node defines when value ids are
+    identities (`ssaG`, evaluated by the driver).  (CSE and OutputFix, which also ADD nodes: oracle only.) -/
+theorem C14_keeps_sorted_subst (m : Model) (h : sortedModel m = true) :
+    sortedModel (ieModel m) = true ∧
+    (∀ lim, ssaG m.graph = true → sortedModel (dedupModel lim m) = true) := by
+  simp only [sortedModel, Bool.and_eq_true] at h
+  refine ⟨?_, fun lim hs => ?_⟩
+  · simp only [sortedModel, ieModel, Bool.and_eq_true]
+    exact ⟨ieG_noFwd _ m.graph [] h.1 (by simp),
+      all_noFwd_map _ (fun f hf => ieG_noFwd _ f [] hf (by simp)) m.funcs h.2⟩
+  · simp only [sortedModel, dedupModel, Bool.and_eq_true]
+    exact ⟨dedupG_noFwd lim m.graph [] hs h.1 (by simp), h.2⟩
+
+end C05Models2
+
+/-! ## NameFixPass on C15's model of the pass -/
+section NameFix
+open IrVerif.Names
+
+/-- **C14_flag_namefix**: when `NameFixPass.call` (C15's `fixModel`: main graph, then every function)
+    returns without an exception and reports `modified = False`, no value name, no node name and no
+    initializer dictionary changed: the world is the world it was given.  No hypothesis on the model. -/
+theorem C14_flag_namefix (w : World) (tops : List Top) (hm : (fixModel w tops).2.1 = false)
+    (hr : (fixModel w tops).2.2 = false) : (fixModel w tops).1 = w :=
+  fixModel_quiet tops w hm hr
+
+/-- **C14_fix_namefix**: on a well-formed model (C15's `PassWF`: initializers keyed by their names,
+    every top-level graph closed, well scoped, without repeated node objects, top-level graphs
+    disjoint) the pass applied to its own result changes nothing, reports `False` and does not raise
+    (= `C15_namefix_idempotent`), so a PassManager with `early_stop` needs at most two rounds
+    (`C14_idempotent_rounds`). -/
+theorem C14_fix_namefix (w : World) (tops : List Top) (wf : PassWF w tops) :
+    fixModel (fixModel w tops).1 tops = ((fixModel w tops).1, false, false) ∧
+    (fixModel w tops).2.2 = false :=
+  ⟨C15_namefix_idempotent w tops wf, (C15_namefix_post w tops wf).2.1⟩
+
+end NameFix
+
+/-! ## RemoveUnusedOpsetsPass / RemoveUnusedFunctionsPass (own transcriptions) -/
+section Unused
+open IrVerif.PassFlags
+
+/-- **C14_unused_opsets_contract**: RemoveUnusedOpsetsPass (both settings of `process_functions`)
+    reports `False` only if every `opset_imports` is unchanged; applied to its own result it reports
+    `False` and changes nothing; `True` strictly decreases the number of opset imports. -/
+theorem C14_unused_opsets_contract (pf : Bool) (s : OpsetSt) :
+    ((removeUnusedOpsets pf s).2 = false → (removeUnusedOpsets pf s).1 = s) ∧
+    removeUnusedOpsets pf (removeUnusedOpsets pf s).1 = ((removeUnusedOpsets pf s).1, false) ∧
+    ((removeUnusedOpsets pf s).2 = true → opsetSize (removeUnusedOpsets pf s).1 < opsetSize s) := by
+  cases s with
+  | mk main funcs =>
+    cases pf
+    · refine ⟨fun h => ?_, ?_, fun h => ?_⟩
+      · simp only [removeUnusedOpsets, Bool.false_eq_true, if_false] at h ⊢
+        rw [opsetsGL_false _ main h]
+      · simp only [removeUnusedOpsets, Bool.false_eq_true, if_false, opsetsGL_idem]
+      · simp only [removeUnusedOpsets, Bool.false_eq_true, if_false, opsetSize] at h ⊢
+        have := (opsetsGL_size ("" :: funcs.map Prod.fst) main).2 h
+        omega
+    · obtain ⟨i1, i2, i3⟩ := funcs_idem funcs
+      refine ⟨fun h => ?_, ?_, fun h => ?_⟩
+      · simp only [removeUnusedOpsets, if_true, Bool.or_eq_false_iff] at h ⊢
+        rw [opsetsGL_false _ main h.1, funcs_false funcs h.2]
+      · simp only [removeUnusedOpsets, if_true, i1, i2, i3, opsetsGL_idem, Bool.or_self]
+      · simp only [removeUnusedOpsets, if_true, Bool.or_eq_true, opsetSize] at h ⊢
+        have a := opsetsGL_size ("" :: funcs.map Prod.fst) main
+        have b := funcs_size funcs
+        rcases h with h | h
+        · have := a.2 h; omega
+        · have := b.2 h; omega
+
+/-- **C14_unused_functions_flag**: RemoveUnusedFunctionsPass reports `False` only if `model.functions`
+    is unchanged. -/
+theorem C14_unused_functions_flag (s : FnSt) (h : (removeUnusedFunctions s).2 = false) :
+    (removeUnusedFunctions s).1 = s := by
+  cases s with
+  | mk main funcs =>
+    simp only [removeUnusedFunctions] at h ⊢
+    rw [filter_of_any_false _ funcs h]
+
+/-- **C14_unused_functions_measure**: ... and `True` strictly decreases the number of functions
+    (hypothesis of `C14_rounds`). -/
+theorem C14_unused_functions_measure (s : FnSt) (h : (removeUnusedFunctions s).2 = true) :
+    (removeUnusedFunctions s).1.funcs.length < s.funcs.length := by
+  cases s with
+  | mk main funcs =>
+    simp only [removeUnusedFunctions] at h ⊢
+    exact filter_lt_of_any _ funcs h
+
+/-- **C14_fix_unused_functions**: the pass applied to its own result reports `False` and removes nothing:
+    the traversal of the reduced table visits exactly the functions it visited before (a function is
+    only ever looked up after it was reached, and every reached function survived), with enough fuel. -/
+theorem C14_fix_unused_functions (s : FnSt) :
+    removeUnusedFunctions (removeUnusedFunctions s).1 = ((removeUnusedFunctions s).1, false) := by
+  have hU := fnUsed_filtered s
+  simp only [removeUnusedFunctions, hU, List.filter_filter, Bool.and_self, any_not_filter]
+
+end Unused
+
+namespace NonVacuity2
+open IrVerif.Sem IrVerif.Passes IrVerif.PassFlags
+
+/-- x0 input; y1 = Identity(x0); y2 = Relu(y1); output y2: the Identity is eliminated -/
+def exIe : Model :=
+  ⟨.mk [0] [2] [] [.mk ⟨"", "Identity", ""⟩ [] [some 0] [1] [], .mk ⟨"", "Relu", ""⟩ [] [some 1] [2] []], []⟩
+example : ieFlag exIe = true ∧ nodesM (ieModel exIe) + 1 = nodesM exIe ∧ ieFlag (ieModel exIe) = false := by
+  decide
+example : validModel exIe = true ∧ idNoBodies exIe = true := by decide
+/-- ... whereas an Identity from a graph input to a graph output is kept (rule 3): flag False -/
+def exIeKeep : Model := ⟨.mk [0] [1] [] [.mk ⟨"", "Identity", ""⟩ [] [some 0] [1] []], []⟩
+example : ieFlag exIeKeep = false := by decide
+
+/-- a = Relu(x0), b = Relu(x0), c = Add(a, b): b is merged into a, no Identity needed -/
+def exCse : Model :=
+  ⟨.mk [0] [3] [] [.mk ⟨"", "Relu", ""⟩ [] [some 0] [1] [], .mk ⟨"", "Relu", ""⟩ [] [some 0] [2] [],
+    .mk ⟨"", "Add", ""⟩ [] [some 1, some 2] [3] []], []⟩
+example : cseFlag 10 exCse = true ∧ cseInserted 10 exCse = 0 ∧ cseFlag 10 (cseModel 10 exCse) = false := by
+  decide
+/-- three equal Relu nodes whose outputs are all graph outputs: the first round replaces two of them by
+    Identity nodes reading the first one (node count unchanged, hypothesis `cseInserted = 0` fails),
+    and these two are a common subexpression of the SECOND round: the pass is not idempotent and the
+    node count is no measure here -/
+def exCse3 : Model :=
+  ⟨.mk [0] [1, 2, 3] [] [.mk ⟨"", "Relu", ""⟩ [] [some 0] [1] [], .mk ⟨"", "Relu", ""⟩ [] [some 0] [2] [],
+    .mk ⟨"", "Relu", ""⟩ [] [some 0] [3] []], []⟩
+example : cseStalled 10 exCse3 = 0 ∧ cseW (cseModel 10 exCse3).graph.nodes < cseW exCse3.graph.nodes ∧
+    cseStalled 10 (cseModel 10 exCse3) = 1 := by decide
+example : cseFlag 10 exCse3 = true ∧ cseInserted 10 exCse3 = 2 ∧
+    (cseModel 10 exCse3).graph.nodes.length = exCse3.graph.nodes.length ∧
+    cseFlag 10 (cseModel 10 exCse3) = true ∧
+    cseFlag 10 (cseModel 10 (cseModel 10 exCse3)) = false := by decide
+
+def exTen : Sem.Tensor := ⟨1, [1], [0, 0, 128, 63], []⟩
+/-- an If-like node whose body holds an initializer that is neither input nor output of the body -/
+def exLsi : Model :=
+  ⟨.mk [0] [2] [] [.mk ⟨"", "If", ""⟩ [] [some 0] [2]
+    [.mk [] [4] [(3, exTen)] [.mk ⟨"", "Neg", ""⟩ [] [some 3] [4] []]]], []⟩
+example : lsiFlag exLsi = true ∧ subInits exLsi = 1 ∧ subInits (lsiModel exLsi) = 0 := by decide
+
+/-- the input is an output, twice -/
+def exOfix : Model := ⟨.mk [0] [0, 0] [] [], []⟩
+example : ofixFlag exOfix = true ∧ ofixCount exOfix = 2 ∧ (ofixModel exOfix).graph.nodes.length = 2 := by
+  decide
+example : ofixFlag exIe = false := by decide
+example : sortedModel exIe = true ∧ sortedModel exLsi = true := by decide
+/-- a model that is not ordered: the consumer comes first -/
+example : sortedModel ⟨.mk [0] [2] [] [.mk ⟨"", "Relu", ""⟩ [] [some 1] [2] [],
+    .mk ⟨"", "Neg", ""⟩ [] [some 0] [1] []], []⟩ = false := by decide
+
+example : (removeUnusedOpsets true ⟨⟨["", "a", "b"], ["a"]⟩, [("f", ⟨["", "c"], [""]⟩)]⟩) =
+    (⟨⟨["", "a"], ["a"]⟩, [("f", ⟨[""], [""]⟩)]⟩, true) := by decide
+example : (removeUnusedOpsets false ⟨⟨["", "f"], []⟩, [("f", ⟨["c"], []⟩)]⟩).2 = false := by decide
+
+/-- main calls f1, f1 calls f2, f3 is unused (and calls f1) -/
+example : removeUnusedFunctions ⟨[7, 1], [(1, [2, 9]), (2, []), (3, [1])]⟩ =
+    (⟨[7, 1], [(1, [2, 9]), (2, [])]⟩, true) := by decide
+example : (removeUnusedFunctions ⟨[1], [(1, [2]), (2, [1])]⟩).2 = false := by decide
+/-- the fuel of `fnUsed` is enough on a chain that is as long as the table -/
+example : (removeUnusedFunctions ⟨[3], [(1, []), (2, [1]), (3, [2, 2]), (4, [3])]⟩).1.funcs.map Prod.fst = [1, 2, 3] := by
+  decide
+
+end NonVacuity2
 
 end IrVerif.PassInfra
